@@ -183,12 +183,13 @@ theorem dfs_all_rank (g : Dfs.Graph) (fuel : Nat) (roots order : List String)
 
 /-- **assignments accepted ⇒ every variable at every position is defined and nothing is defined
 in terms of itself**: there is a rank on variable names such that every variable occurring
-anywhere in an assignment's expression is a built-in constant or a defined variable of strictly
-smaller rank (so: no undefined reference, no self reference, no cycle of any length). -/
+anywhere in an assignment's expression is a built-in constant that no assignment redefines, or a defined variable of
+strictly smaller rank (so: no undefined reference, no self reference, no cycle of any length - also not through a variable
+that is named like a constant: `HEX := HEX` was accepted and overflowed the stack when evaluated, repaired in 6e60f2d). -/
 theorem assignments_accept_sound (m : Module) (order : List String)
     (h : resolveAssignments m = .ok order) :
     ∃ rank : String → Nat, ∀ n e, m.assigns.lookup n = some e → ∀ x, Occurs x e →
-      isConst x = true ∨ ((m.assigns.lookup x).isSome ∧ rank x < rank n) := by
+      (isConst x = true ∧ m.assigns.lookup x = none) ∨ ((m.assigns.lookup x).isSome ∧ rank x < rank n) := by
   unfold resolveAssignments at h
   split at h <;> try (cases h)
   rename_i order' hdfs
@@ -198,7 +199,9 @@ theorem assignments_accept_sound (m : Module) (order : List String)
   simp only [assignGraph, hne, Option.map_some, Option.some.injEq] at hss
   subst hss
   rcases hall x ((walk_complete x e).mpr hx) with hk | ⟨hnode, hlt⟩
-  · exact Or.inl hk
+  · left
+    simp only [assignGraph, Bool.and_eq_true, Option.isNone_iff_eq_none] at hk
+    exact hk
   · right
     refine ⟨?_, hlt⟩
     simp only [assignGraph, Option.isSome_map] at hnode
@@ -214,19 +217,20 @@ theorem undefined_in_assignment_rejected (m : Module) (n x : String) (e : Expr)
   | ok order =>
     obtain ⟨rank, hr⟩ := assignments_accept_sound m order h
     rcases hr n e hne x hx with hk | ⟨hs, _⟩
-    · rw [hc] at hk; cases hk
+    · rw [hc] at hk; cases hk.1
     · rw [hu] at hs; cases hs
 
-/-- a variable defined in terms of itself (directly) is rejected -/
+/-- a variable defined in terms of itself (directly) is rejected - whatever it is called: before the repair 6e60f2d this
+needed the hypothesis that the name is not that of a built-in constant, and `HEX := HEX` was the counterexample -/
 theorem self_reference_rejected (m : Module) (n : String) (e : Expr)
-    (hne : m.assigns.lookup n = some e) (hx : Occurs n e) (hc : isConst n = false) :
+    (hne : m.assigns.lookup n = some e) (hx : Occurs n e) :
     ∃ err, resolveAssignments m = .error err := by
   cases h : resolveAssignments m with
   | error err => exact ⟨err, rfl⟩
   | ok order =>
     obtain ⟨rank, hr⟩ := assignments_accept_sound m order h
     rcases hr n e hne n hx with hk | ⟨_, hlt⟩
-    · rw [hc] at hk; cases hk
+    · rw [hne] at hk; cases hk.2
     · omega
 
 /-! ### recipes: dependencies exist, and the dependency graph is acyclic -/
